@@ -482,6 +482,18 @@ fn bus_scenario(seed: u64, n: usize) -> Result<(Events, bool), String> {
             mixf(&mut acc, o.next());
         }
     }
+    // an extra output joins, runs in step for a while and is dropped while everything is in step
+    // (empty backlog): the bus must forget it completely
+    if seed % 2 == 0 {
+        let mut extra = bus.send();
+        for _ in 0..10 {
+            for o in outputs.iter_mut() {
+                mixf(&mut acc, o.next());
+            }
+            mixf(&mut acc, extra.next());
+        }
+        drop(extra);
+    }
     let backlog0 = bus.verif_backlog_len();
     let (max_backlog, ev) = measure(|| {
         let mut mb = 0usize;
